@@ -368,6 +368,9 @@ func TestSeq(t *testing.T) {
 	if prop == "C13" {
 		gcMetamorphic(t, hs, res)
 	}
+	if prop == "C07" {
+		inertMetamorphic(t, hs, res)
+	}
 	// corpus and witnesses first in the list so they are always compared and monitored
 	hs = append(corpus(t, prop), hs...)
 	if err := runModel(hs); err != nil {
@@ -605,6 +608,87 @@ func gcMetamorphic(t *testing.T, hs []*History, res *common.Result) {
 						}
 					}
 					mu.Unlock()
+				}
+			})
+		}
+	})
+}
+
+// inertMetamorphic (C07): every history that contains a request answered with an error is replayed
+// on the real server WITHOUT that request (its request number and the clock are kept); every later
+// answer, the listing, the state file, the lease timers and the blocked calls must be the same: a
+// failed request has no effect on anything that follows. Failed Unlocks with a wrong key on an existing
+// lock are not left out (they restart the lock's idle period, see below); the lock table's idle clock
+// is not compared; K11 (C13: a failing Unlock names a different reason after a collection) is skipped.
+func inertMetamorphic(t *testing.T, hs []*History, res *common.Result) {
+	var mu sync.Mutex
+	t.Run("inert", func(t *testing.T) {
+		for w := 0; w < 16; w++ {
+			w := w
+			t.Run(fmt.Sprint("w", w), func(t *testing.T) {
+				t.Parallel()
+				for i := w; i < len(hs); i += 16 {
+					h := hs[i]
+					if h == nil || h.Fatal != "" {
+						continue
+					}
+					// the failed requests of this history (at most 3 are left out, one replay each)
+					cand := []int{}
+					for j, s := range h.Steps {
+						k := s.Op.Kind
+						if (k == "trylock" || k == "lock" || k == "unlock" || k == "renew") && s.Resp.Err != "-" && !s.Resp.Pending && s.Resp.Panic == "" && len(s.Resp.Events) == 0 {
+							if k == "unlock" && s.Resp.Err == "InvalidLockKey" {
+								// an Unlock with a wrong key on an EXISTING lock is an access: it restarts the lock's idle
+								// period, which may move a later collection (not a hold, lease, waiter or bookkeeping entry)
+								continue
+							}
+							cand = append(cand, j)
+						}
+					}
+					for n, f := range cand {
+						if n >= 3 {
+							break
+						}
+						ops := h.Ops()
+						if k := ops[f].Kind; k == "trylock" || k == "lock" {
+							ops[f] = impl.Op{Kind: "skipreq"}
+						} else {
+							ops[f] = impl.Op{Kind: "adv", D: 0}
+						}
+						g := runImpl(t, h.Idx, h.Cfg, &fixedSource{ops: ops}, nil)
+						mu.Lock()
+						res.Count("inert-replays")
+						for j := f + 1; j < len(h.Steps) && j < len(g.Steps); j++ {
+							a, b := channels(h.Steps[j].Impl), channels(g.Steps[j].Impl)
+							bad := ""
+							for _, c := range []string{"r", "L", "F", "TM", "P"} {
+								if a[c] != b[c] {
+									bad = c
+									break
+								}
+							}
+							if bad == "" {
+								continue
+							}
+							ea, eb := h.Steps[j].Resp.Err, g.Steps[j].Resp.Err
+							if bad == "r" && (h.Steps[j].Op.Kind == "unlock" || h.Steps[j].Op.Kind == "ipcunlock") && !h.Steps[j].Resp.Ok && !g.Steps[j].Resp.Ok &&
+								((ea == "LockDoesNotExist" && eb == "InvalidLockKey") || (eb == "LockDoesNotExist" && ea == "InvalidLockKey")) {
+								res.Count("inert-replay:K11-error-code-difference-skipped")
+								break // K11 (C13): the histories have diverged in what was collected
+							}
+							rp := replay(h, j, bad)
+							rp["failed_request_at"] = f
+							rp["failed_request"] = h.Steps[f].Op.Line()
+							rp["failed_request_answer"] = h.Steps[f].Impl
+							rp["without_it"] = g.Steps[j].Impl
+							rp["model_agrees"] = h.DisAt < 0 || h.DisAt > j
+							res.Find(common.Finding{Kind: "violation", Property: "C07", Signature: "seq:inert:later-" + bad,
+								What:   fmt.Sprintf("the failed request %q (answer %q) changed what follows: %q gives %q with it and %q without it (channel %s)", h.Steps[f].Op.Line(), channels(h.Steps[f].Impl)["r"], h.Steps[j].Op.Line(), a[bad], b[bad], bad),
+								Replay: rp})
+							break
+						}
+						mu.Unlock()
+					}
 				}
 			})
 		}
